@@ -95,6 +95,11 @@ P = {
    "All views (as_view, to_value, ValueCow owned/borrowed, Option, references, to_value/from_value/to_object, serde_json round trip) must agree with the original on type name, state answers, kind predicates, size/keys, scalar conversions, printed forms and == in both directions; derived structs must render exactly like their serde conversion; out-of-range integers must be refused or carried as the nearest double.",
    "date-looking strings excluded from the serde -> Liquid direction (documented purpose of the untagged scalar); real dates cross Serialize as strings and are compared through from_value only; a conversion may refuse (enums needing deserialize_enum, 128-bit integers) but must not alter",
    "DESIGN.md §5 C12"),
+ "C18": (True, "stackmc", "model_checking",
+   "explicit-state model checking (stateright BFS and DFS) of a stack-of-maps model over 28 actions; every transition re-executes the whole history on the real RuntimeBuilder/StackFrame/SandboxedStackFrame/GlobalFrame types and compares all get/try_get/roots/get_index observations with the model",
+   "All reachable abstract states within the bounds (<= 3 layers / 5 operations quick, <= 4 layers / 6 operations thorough) are visited; in each the real top-of-stack runtime must answer every path of length 1..2, the root listing and the counters exactly as the model predicts, the failing and optional lookup must agree, roots() must be exactly the resolving names, and every live layer must see the same counters.",
+   "state identity = abstract state (sound because every transition proves the real observations are a function of it); guarded by an un-deduplicated enumeration of all operation sequences to depth 3-4 and by BFS/DFS unique-state agreement",
+   "DESIGN.md §5 C18"),
 }
 ORDER = ["C%02d" % i for i in range(1, 21)]
 REASON_WIP = "check not built yet in this round (work in progress; planned per DESIGN.md §5)"
